@@ -1,7 +1,4 @@
 #!/bin/bash
-# re-evaluates every recorded seed against the current checks and prints a matrix
+# re-evaluates every recorded seed against the current checks (4 at a time) and prints a matrix
 cd /verif
-for d in seeded/*/; do
-  n=$(basename $d)
-  tools/seed_eval.sh /verif/seeded/$n $n 2>&1 | grep "^fired:" | sed "s/^/$n /"
-done
+ls seeded | xargs -P 4 -I{} sh -c 'tools/seed_eval.sh /verif/seeded/{} {} 2>&1 | grep -E "^fired:|demo mutated|suite:" | sed "s/^/{} /"'
